@@ -4,7 +4,7 @@ import TextxVerif.RuleTypes
 request:
   {"op":"check","rules":[{"attrs":bool,"body":B}…],"trees":[T…]}
     B = "l" | {"r":n} | {"s":[B…]} | {"c":[B…]} | {"o":[B…]}
-    T = {"t":text} | {"n":rule,"k":[T…]} | {"a":attr,"k":[T…]}
+    T = {"t":matched text,"v":text of the converted value} | {"n":rule,"k":[T…]} | {"a":attr,"k":[T…]}
 answer:
   {"ok":bool,"kinds":["match"|"abstract"|"common"…],"inh":[[n…]…],
    "isinst":[[o,[R…]]…]   (for every rule o with assignments: the rules R with isInstance o R),
@@ -40,7 +40,9 @@ def parseRule (j : Json) : Option Rule := do
 
 partial def parsePT (j : Json) : Option PT :=
   match getStr? j "t" with
-  | some t => some (.term t)
+  | some t => do
+    let v ← getStr? j "v"
+    pure (.term t v)
   | none => do
     let ks ← (← getArr? j "k").toList.mapM parsePT
     match getNat? j "n" with
